@@ -1,6 +1,8 @@
 package main
 
 import (
+	"os"
+	"runtime/debug"
 	"context"
 	"fmt"
 	"math/rand"
@@ -177,6 +179,9 @@ func safeCall(name string, f func() (interface{}, error)) (res QResult) {
 			if p := recover(); p != nil {
 				r.Panic = fmt.Sprint(p)
 				r.PanicFunc = panicFunc()
+				if os.Getenv("DEBUG_STACK") != "" {
+					fmt.Fprintln(os.Stderr, string(debug.Stack()))
+				}
 			}
 			done <- r
 		}()
